@@ -19,7 +19,7 @@ from pyexpr2lean import Untranslatable
 from pydyn2lean import DSpec, translate_dyn
 from anchors_script import PY2LEAN
 
-FILES = {'cropping': 'xyzpy/gen/cropping.py', 'growcli': 'xyzpy/gen/xyzpy_grow_cli.py'}
+FILES = {'cropping': 'xyzpy/gen/cropping.py', 'growcli': 'xyzpy/gen/xyzpy_grow_cli.py', 'utils': 'xyzpy/utils.py'}
 
 
 def val(n): return (n, 'val')
@@ -190,8 +190,15 @@ class CliTr(SkTr):
             s = stmts[0]
             if isinstance(s, ast.Raise):
                 exc = s.exc.func if isinstance(s.exc, ast.Call) else s.exc
-                if exc is not None and ast.unparse(exc).split('.')[-1] in ('XYZPYError', 'XYZError'):
-                    return ind + self.err(env, '.xyzError')
+                name = ast.unparse(exc) if exc is not None else ''
+                if name.startswith('xyzpy.utils.'):
+                    # the library's own error class — if xyzpy/utils.py defines that name; otherwise evaluating the
+                    # expression is itself an AttributeError (`.other`)
+                    cls = name.split('.')[-1]
+                    defined = any((isinstance(n, ast.ClassDef) and n.name == cls) or
+                                  (isinstance(n, ast.Assign) and any(ast.unparse(t) == cls for t in n.targets))
+                                  for n in self.trees['utils'].body)
+                    return ind + self.err(env, '.xyzError' if defined and cls in ('XYZError', 'XYZPYError') else '.other')
             if isinstance(s, ast.If) and not getattr(s, '_cli_seen', False):
                 qs = [n for n in ast.walk(s.test) if isinstance(n, ast.Call) and ast.unparse(n.func) == 'crop.is_prepared']
                 if qs:
